@@ -146,7 +146,10 @@ deriving Repr, DecidableEq
 /-- the walk proper, from the object found at `path` -/
 def walkFrom (c : VCfg) (st0 : WalkSt) (path rel : Str) : Option Obj → Except Err WalkSt
   | none => .error .abstain
-  | some (.dir d i ks) => walkDir c st0 (pjoin sysRoot path) rel (.dir d i ks)
+  | some (.dir d i ks) =>
+    -- `os.path.normpath(os.path.join(root_directory, path))` (repair of finding F9: without the
+    -- normalisation a walk from '' starts at "root/", whose children do not find it as their parent)
+    walkDir c st0 (if rel.isEmpty then sysRoot else sysRoot ++ slash :: rel) rel (.dir d i ks)
   | some .absent => .error (.os .ENOENT)
   | some _ => .error (.os .ENOTDIR)
 
